@@ -42,6 +42,7 @@ func buildFamily(family, tier string, seed int64) []*Scenario {
 		}
 		g.bound = ""
 		out = append(out, g.famBounds("ay", numeric)...)
+		out = append(out, g.famTwoLevel("az", []string{"gt", "gte", "lt", "lte"}, numeric)...)
 	case "c02":
 		out = append(out, g.corpusC07("b")...) // path-collision and deep-nesting shapes with `required`
 		rep(n(1, 40), func(i int) []*Scenario { return g.famMatrix(fmt.Sprintf("b%03d", i), []string{"required"}, allTypes, 12, true) })
@@ -50,8 +51,11 @@ func buildFamily(family, tier string, seed int64) []*Scenario {
 			return g.famMatrix(fmt.Sprintf("c%03d", i), []string{"minlength", "maxlength", "length"}, []*TypeX{stringT}, 6, true)
 		})
 		out = append(out, g.famCombo("cz", n(12, 600), []string{"minlength", "maxlength", "length"})...)
+		out = append(out, g.famTwoLevel("cy", []string{"minlength", "maxlength", "length"}, []*TypeX{stringT})...)
+		out = append(out, g.corpusC07("cx")...)
 	case "c04":
 		rep(n(2, 72), func(i int) []*Scenario { return g.famMatrix(fmt.Sprintf("d%03d", i), []string{"minitems", "maxitems"}, collTypes, 12, true) })
+		out = append(out, g.famTwoLevel("dy", []string{"minitems", "maxitems"}, collTypes)...)
 	case "c05":
 		ts := append([]*TypeX{stringT}, numeric...)
 		rep(n(2, 90), func(i int) []*Scenario { return g.famMatrix(fmt.Sprintf("e%03d", i), []string{"enum"}, ts, 12, true) })
@@ -76,6 +80,11 @@ func buildFamily(family, tier string, seed int64) []*Scenario {
 		out = g.famRandom("r", n(24, 120), 8)
 	case "all":
 		out = append(out, g.corpusC07("m")...)
+		for i := 0; i < 3; i++ { // the long enum lists (9, 12 and 30 items)
+			g.pool = i + 1
+			out = append(out, g.famMatrix(fmt.Sprintf("me%d", i), []string{"enum"}, []*TypeX{stringT}, 4, true)...)
+		}
+		g.pool = 0
 		out = append(out, g.famMatrix("m", []string{"required", "gt", "gte", "lt", "lte", "minlength", "maxlength", "length", "minitems", "maxitems", "enum", "email", "url", "uuid", "alpha", "numeric", "ipv4", "ipv6"}, allTypes, 14, false)...)
 		out = append(out, g.famRandom("r", n(12, 60), 8)...)
 	}
